@@ -111,6 +111,13 @@ def mutants(M, pieces):
                 m = mk()
                 m[i]["def"]["fields"][fn]["type"] = retarget(pieces[i]["def"]["fields"][fn]["type"], other)
                 yield "interface_not_honoured", "incompatible_type_" + fw, via_ext or "ext" in fw, m, {}
+                # nullability required by the interface dropped by the implementation (at any wrapper level)
+                ot = pieces[i]["def"]["fields"][fn]["type"]
+                for pos in [k for k, ch in enumerate(ifd["type"]) if ch == "!"]:
+                    if ot == ifd["type"]:
+                        m = mk()
+                        m[i]["def"]["fields"][fn]["type"] = ot[:pos] + ot[pos + 1:]
+                        yield "interface_not_honoured", "nullability_dropped_%s_" % ("outer" if pos == len(ot) - 1 else "inner") + fw, True, m, {}
                 m = mk()
                 m[i]["def"]["fields"][fn].setdefault("args", {})["zzRequired"] = {"type": "Int!"}
                 yield "interface_not_honoured", "extra_required_argument_" + fw, via_ext or "ext" in fw, m, {}
@@ -175,6 +182,14 @@ def mutants(M, pieces):
             yield "undefined_root", "extend_schema_" + op, True, m, {}
 
     # ---- structure
+    for op, o in M["roots"].items():
+        # a root type without fields (the injected __schema / __type / __typename do not count)
+        m = [p for p in mk() if not (p["p"] == "ext" and p["name"] == o)]
+        for p in m:
+            if p["p"] == "type" and p["name"] == o:
+                p["def"]["fields"] = {}
+                p["def"]["interfaces"] = []
+        yield "object_without_fields", "%s_root" % op, False, m, {}
     for o in objs[:3]:
         if o in M["roots"].values():
             continue
